@@ -1,0 +1,26 @@
+//go:build verif
+
+// Contracts for the isolation level adapter, read by /verif/govc.
+package iso_level
+
+import "github.com/glebziz/fs_db/internal/model"
+
+//@ func Convert
+//@   ensures ru:  level == store.TxIsoLevel_ISO_LEVEL_READ_UNCOMMITTED ==> result == fs_db.IsoLevelReadUncommitted
+//@   ensures rc:  level == store.TxIsoLevel_ISO_LEVEL_READ_COMMITTED ==> result == fs_db.IsoLevelReadCommitted
+//@   ensures rr:  level == store.TxIsoLevel_ISO_LEVEL_REPEATABLE_READ ==> result == fs_db.IsoLevelRepeatableRead
+//@   ensures ser: level == store.TxIsoLevel_ISO_LEVEL_SERIALIZABLE ==> result == fs_db.IsoLevelSerializable
+
+//@ func ConvertToGrpc
+//@   ensures ru:  level == fs_db.IsoLevelReadUncommitted ==> result == store.TxIsoLevel_ISO_LEVEL_READ_UNCOMMITTED
+//@   ensures rc:  level == fs_db.IsoLevelReadCommitted ==> result == store.TxIsoLevel_ISO_LEVEL_READ_COMMITTED
+//@   ensures rr:  level == fs_db.IsoLevelRepeatableRead ==> result == store.TxIsoLevel_ISO_LEVEL_REPEATABLE_READ
+//@   ensures ser: level == fs_db.IsoLevelSerializable ==> result == store.TxIsoLevel_ISO_LEVEL_SERIALIZABLE
+
+// The level a client asks for is the level the server registers (lemma over the two contracts).
+//@ func lemmaLevelRoundTrip
+//@   requires valid: level == fs_db.IsoLevelReadUncommitted || level == fs_db.IsoLevelReadCommitted || level == fs_db.IsoLevelRepeatableRead || level == fs_db.IsoLevelSerializable
+//@   ensures  same:  result == level
+func lemmaLevelRoundTrip(level model.TxIsoLevel) model.TxIsoLevel {
+	return Convert(ConvertToGrpc(level))
+}
